@@ -4,6 +4,8 @@ import (
 	"bytes"
 	"encoding/json"
 	"fmt"
+	"maps"
+	"slices"
 	"strings"
 
 	"github.com/cedar-policy/cedar-go/internal/consts"
@@ -138,7 +140,12 @@ func (j arrayJSON) ToNode() (ast.Node, error) {
 
 func (j recordJSON) ToNode() (ast.Node, error) {
 	var nodes ast.Pairs
-	for k, v := range j {
+	// Entries are produced in key order: in map iteration order, decoding the same
+	// bytes twice would give differently ordered ASTs (and Cedar renderings).
+	keys := slices.Collect(maps.Keys(j))
+	slices.Sort(keys)
+	for _, k := range keys {
+		v := j[k]
 		if v == nil {
 			return ast.Node{}, fmt.Errorf("error in record: null value for key %q", k)
 		}
@@ -306,8 +313,10 @@ func (p *Policy) UnmarshalJSON(b []byte) error {
 	default:
 		return fmt.Errorf("unknown effect: %v", j.Effect)
 	}
-	for k, v := range j.Annotations {
-		p.unwrap().Annotate(types.Ident(k), types.String(v))
+	annotationKeys := slices.Collect(maps.Keys(j.Annotations))
+	slices.Sort(annotationKeys)
+	for _, k := range annotationKeys {
+		p.unwrap().Annotate(types.Ident(k), types.String(j.Annotations[k]))
 	}
 	var err error
 	p.Principal, err = j.Principal.ToPrincipalResourceNode()
